@@ -51,7 +51,7 @@ class Ob(dict):
                     checks=None, backend='cadical', timeout=300, mem_gb=12,
                     tiers=('quick', 'thorough'), bound='', funcs=[], stubs=[], shape=[],
                     replay='native', kind='cbmc', run=None, cbmc_extra=[], object_bits=11, unwind_rules=[],
-                    malloc_may_fail=False, nowitness=False, instances=[])
+                    malloc_may_fail=False, nowitness=False, instances=[], branch_trace=False)
     def __init__(self, **kw):
         d = dict(Ob.DEFAULTS); d.update(kw)
         super().__init__(d)
@@ -197,6 +197,12 @@ def build_ob(ob, workdir):
     out = os.path.join(workdir, 'linked.gb')
     r = sh(['goto-cc'] + parts + ['-o', out], timeout=300)
     if r['rc'] != 0: return None, 'link failed: ' + (r['err'] + r['out'])[-1500:]
+    if ob.branch_trace:
+        # branch-trace instrumentation (C14): vp_br("taken"/"not-taken") at both arms of every conditional goto
+        out2 = os.path.join(workdir, 'linked.br.gb')
+        r = sh(['goto-instrument', '--branch', 'vp_br', out, out2], timeout=300)
+        if r['rc'] != 0 or not os.path.exists(out2): return None, 'goto-instrument --branch failed: ' + (r['err'] + r['out'])[-800:]
+        out = out2
     return out, None
 
 def extra_deps(path):
@@ -426,6 +432,9 @@ def check_entry(ob, gb, entry, workdir, tier):
     if not ob.nowitness and not res['witness']:
         res.update(verdict='BROKEN', detail='reachability witness did not fire (vacuous harness)')
         return res
+    nobody = [p for p in real if 'no body for callee' in p[1]]
+    if nobody:
+        res.update(verdict='BROKEN', detail='incomplete link: ' + '; '.join(sorted({p[1] for p in nobody}))[:400]); return res
     if not real:
         if uw:
             res.update(verdict='UNDECIDED', detail='unwinding assertion failed: ' + '; '.join(p[0] for p in uw[:4]))
